@@ -1,18 +1,11 @@
 (** Proofs about Model.Lookup / Model.Glob (property C03). *)
 From Coq Require Import String List NArith Bool Lia PeanoNat Sorting.Sorted Sorting.Permutation.
-From Fabio Require Import Lib.Bytes Model.Glob Model.Lookup.
+From Fabio Require Import Lib.Bytes Model.Glob Model.Lookup Proofs.LookupGlob.
 Import ListNotations.
 Local Open Scope N_scope.
 
 (* ------------------------------------------------------------------ *)
 (** * Small list facts *)
-
-Lemma existsb_false {A} (f : A -> bool) l x :
-  existsb f l = false -> In x l -> f x = false.
-Proof.
-  intros H Hin. destruct (f x) eqn:E; [|reflexivity].
-  assert (existsb f l = true) by (apply existsb_exists; eauto). congruence.
-Qed.
 
 Lemma first_some_some {A B} (f : A -> option B) l b :
   first_some f l = Some b -> exists x, In x l /\ f x = Some b.
